@@ -11,7 +11,7 @@ ENGINES = [
 
 ENGINES.append(
     {"name": "E3-enumerate", "path": "vf/props/",
-     "serves_properties": ["C02", "C07", "C20"],
+     "serves_properties": ["C02", "C07", "C09", "C20"],
      "kind_free_text": "small-scope exhaustive enumerators (compositions, "
      "all boolean masks / NaN placements, option products) run against the "
      "real code with a reference oracle per case"})
@@ -226,5 +226,27 @@ CHECKS = {
         "note": "states are not merged (each file is distinct); referrer "
                 "and origin live in one scratch directory; remote basins "
                 "are covered by C14/C19",
+    },
+    "C09": {
+        "engine": "E3-enumerate",
+        "level": "exploration",
+        "technique": "exhaustive enumeration of (N, split size) pairs and "
+                     "of join input orders x missing-feature subsets x "
+                     "acquisition times on the real CLI functions vs. numpy "
+                     "slicing/concatenation",
+        "text": "split: every (N, size) with N<=8 (quick) / 12 (thorough), "
+                "size 1..N+2, plus zero boundary images with both flag "
+                "settings: part count, part sizes, every feature of every "
+                "part equals the corresponding slice. join: k=2 all orders "
+                "x all pairs of missing-feature subsets from a 4-feature "
+                "pool containing two adjacent pairs and one feature that is "
+                "computable for some inputs only, all 25 pairs of "
+                "acquisition times (fractional seconds, date change, ties); "
+                "k=3 all orders x 27 subset assignments; thorough k=4,5: "
+                "feature set, chronological concatenation, time/frame "
+                "offsets, fresh index, continued index_online, retained "
+                "logs; split+join round trips.",
+        "note": "ties generated with equal run index; index_online excluded "
+                "from the round trip (join makes it continuous by design)",
     },
 }
